@@ -27,7 +27,7 @@ LEVEL_TEXT.update({
     'C08': 'Unbounded deductive proof (Verus) of the trap-reset clause only (command traps reset to default with the parent state saved, ignores kept, on subshell entry). The rest of C08 (isolation of all other state under every interleaving) is outside what a function contract can state and is not claimed.',
 })
 LEVEL_TEXT.update({
-    'C01': 'Unbounded deductive proof (Verus) for the field-splitting kernel only: Ranges::next equals a reference IFS splitter on every input, and classification marks only unquoted expansion results as separators. The statement as a whole (all expansion forms x all shell states) runs through async code and is not decided.',
+    'C01': 'Kernel only. Unbounded deductive proof (Verus): Ranges::next equals a reference IFS splitter on every input; only unquoted expansion results are classified as separators; the unset-or-null table of the switch forms equals XCU 2.6.2. Bounded (Kani, concrete enumeration): the real Ifs::new/non_whitespaces/Ranges::next against an executable reference for five IFS values and inputs of <= 2-3 characters. The statement as a whole (all expansion forms x all shell states) runs through async code and is not decided.',
 })
 LEVEL_TEXT.update({
     'C04': 'Bounded checks (Kani) of the translation kernel on the real code: each ASCII literal is emitted as itself in both regex positions, collating symbols/equivalence classes stand for their characters, ? * and unclosed [; plus an unbounded Verus proof of make_range. Not a decision of the language equality, which is delegated to the regex engine.',
@@ -59,7 +59,7 @@ TECH.update({
 
 
 TECH.update({
-    'C01': 'contract-based deductive verification (Verus, Z3) of the IFS splitting state machine against a reference automaton',
+    'C01': 'contract-based deductive verification (Verus, Z3) of the IFS splitting state machine and the switch table + bounded Kani sibling on the real crate',
 })
 
 
